@@ -22,7 +22,7 @@
 From FA.Base Require Import PyAst Value Traverse.
 From FA.Gen Require Import TablesSimp.
 From FA.Model Require Import Simplify.
-From FA.Proofs Require Import SimplifyFacts SimplifyPkg SimplifyTotal.
+From FA.Proofs Require Import SimplifyFacts SimplifyPkg SimplifyTotal SimplifyFuel.
 
 Theorem index_error_exactly_out_of_range : forall es n,
   match seq_project es n with
@@ -100,6 +100,18 @@ Theorem simplify_no_crash : forall fuel c e,
   end.
 Proof. intros fuel c e Hw. exact (SimplifyTotal.simp_no_crash fuel [[]] [] c e Hw wfst_empty). Qed.
 Print Assumptions simplify_no_crash.
+
+(* the fuel is only a recursion budget: an outcome other than [OutOfFuel] is the same for every larger fuel, so two runs
+   with enough fuel return the same result (termination itself - that enough fuel exists - is not proved) *)
+Theorem fuel_is_only_a_budget : forall f1 f2 st bd c e r1 r2,
+  simp f1 st bd c e = r1 -> simp f2 st bd c e = r2 -> r1 <> OutOfFuel -> r2 <> OutOfFuel -> r1 = r2.
+Proof. exact simp_fuel_irrelevant. Qed.
+Print Assumptions fuel_is_only_a_budget.
+
+Theorem more_fuel_same_outcome : forall k f st bd c e r,
+  simp f st bd c e = r -> r <> OutOfFuel -> simp (f + k) st bd c e = r.
+Proof. exact simp_fuel_mono. Qed.
+Print Assumptions more_fuel_same_outcome.
 
 (* well-formed trees contain no raw slot, at any depth *)
 Theorem wfq_no_raw : forall c, wfq (Raw c) = false.
